@@ -11,8 +11,8 @@ use cel_interpreter::{Context, ExecutionError, ResolveResult, Value};
 use serde::{Deserialize, Serialize};
 use std::collections::BTreeSet;
 
-pub const VARS: [&str; 12] = ["a", "b", "c", "x", "y", "size", "int", "has", "all", "t0", "v_1", "k"];
-pub const FUNCS: [&str; 12] = ["f", "g", "size", "int", "contains", "h", "max", "m", "dyn", "type", "all", "map"];
+pub const VARS: [&str; 14] = ["a", "b", "c", "x", "y", "size", "int", "has", "all", "t0", "v_1", "k", ".a", ".size"];
+pub const FUNCS: [&str; 14] = ["f", "g", "size", "int", "contains", "h", "max", "m", "dyn", "type", "all", "map", ".f", ".size"];
 
 #[derive(Clone, Debug, Serialize, Deserialize)]
 pub struct Case {
@@ -80,7 +80,8 @@ fn positions(e: &E, tag: &'static str, out: &mut Vec<&'static str>) {
 fn written_identifiers(e: &E, out: &mut BTreeSet<String>) {
     match e {
         E::Var(n) => {
-            out.insert(n.clone());
+            // `.a` is the identifier a, written root-qualified
+            out.insert(n.trim_start_matches('.').to_string());
         }
         E::Macro(_, _, v, _) => {
             out.insert(v.clone());
